@@ -243,4 +243,22 @@ theorem unblocked_of_allClosed {s : State} (hg : Good s) (ha : AllClosed s) : Un
   have := ha cn hcn (hk.hs_acc (hk.started_hs k hkm hst))
   simp [hcl] at this
 
+/-- decidable form of `Unblocked` -/
+def unblockedB (s : State) : Bool :=
+  s.conns.all fun cn => cn.closed || cn.calls.all fun k =>
+    !k.started || k.cancelled || k.todo.isEmpty || decide (0 < k.permits) || s.freeRun
+
+theorem unblocked_of_bool {s : State} (h : unblockedB s = true) : Unblocked s := by
+  intro cn hcn hcl k hk hst hcan hne
+  simp only [unblockedB, List.all_eq_true, Bool.or_eq_true, Bool.not_eq_true',
+    decide_eq_true_eq, List.isEmpty_iff] at h
+  rcases h cn hcn with h1 | h1
+  · simp [hcl] at h1
+  · rcases h1 k hk with (((h2 | h2) | h2) | h2) | h2
+    · simp [hst] at h2
+    · simp [hcan] at h2
+    · exact absurd h2 hne
+    · exact Or.inl h2
+    · exact Or.inr h2
+
 end Shutdown
